@@ -9,6 +9,14 @@ CLAIMS = {
   'Seeded search over generated well-typed sequential programs x argv x word size x stack (generous and measured minimum) x poisoned free stack; every output byte and flag of the real compiler\'s code, executed on the simulated Sphinx machine, is compared with an independent source-level reference interpreter; all monitors run.',
   'SVM is a home-made stub of the Sphinx emulator calibrated on upstream tests/test_codegen.py (52/52) and the README examples; reference model is my reading of the README; sampling, not proof.',
   'deterministic simulation: seeded program/input/config generation, emitted code stepped on a simulated machine with rollback oracle, differential oracle vs reference model'),
+ 'C02': ('exploration', '3 C02',
+  'Seeded time-travel programs (try/undo, try/stop also in loops and left by break/continue/return, handlers containing tries, preempt in try bodies and in defeat functions incl. recursive and preemptive ones, ?? with side-effecting operands, you-helpers) run on the simulated machine whose Turing-jump oracle explores choice/rollback schedules; the committed history must equal that of a reference interpreter that resolves the source-level choice points by newest-first backtracking. Histories of consecutive tries (canary try/undo after each try) make a stale handler observable. Checked and unchecked builds, poisoned free stack.',
+  'Two independent searches (machine-level tree with a choice at every branch vs source-level tree) must agree; both are mine, neither is spasm. Budget-exceeding searches are counted and not judged.',
+  'deterministic simulation: rollback oracle explores speculative timelines; seeded program/history generation; refinement check against a backtracking reference model'),
+ 'C05': ('fault_enumeration', '3 C05',
+  'The fault axis is enumerated: every fault kind x operator/element type/storage class x boundary index/divisor/length with its nearest harmless neighbours (936 matrix programs whose expected flag is derived independently of the reference model and cross-checked with it), plus the same faults planted at seeded positions inside loops, callees and try bodies of generated programs; exact flag sequence, intact prefix and nothing-after are checked on the committed timeline.',
+  'Flag for bad lengths is stack_overflow as the implementation/upstream tests define; bool lengths within 7 of the largest signed value are not probed (README silent).',
+  'deterministic simulation with enumerated program-level fault injection; differential oracle vs reference model'),
  'C09': ('exploration', '3 C09',
   'Boundary grid x every operator and cast x four lowering positions (value, branch, !truth_is_defeat under try/undo and under try/stop) x word sizes {2,3,4}, operands passed through argv so nothing folds, plus seeded operand rows; the emitted code runs on the simulated machine (the defeat positions need its Turing-jump oracle) and every printed result is compared with the reference interpreter.',
   'Weak fit for the technique (the quantifier is a value grid); the simulator is needed because the result exists only as behaviour of emitted code. SVM/reference assumptions as for C01; floor div/mod assumed.',
